@@ -20,6 +20,7 @@
   the current code by decided counter-examples.
 -/
 import JsonC.Lemmas.NumMut
+import JsonC.Lemmas.TranslatedNum
 
 set_option exponentiation.threshold 2000
 
